@@ -2,6 +2,8 @@ package server
 
 import (
 	"context"
+	"net"
+	"time"
 
 	"github.com/osrg/gobgp/v4/pkg/config/oc"
 	"github.com/osrg/gobgp/v4/pkg/packet/bgp"
@@ -371,5 +373,64 @@ func VH_c07_server_guards() {
 	} else {
 		vAssert(adj == n && loc == n, "an UPDATE on an Established session was not installed")
 		vReach("installed")
+	}
+}
+
+// Connection collision in OpenSent: an OPEN arrives on the incoming connection while the concurrent
+// active open has completed its own OPEN exchange. Exactly the connection RFC 4271 6.8 designates
+// survives (the one opened by the speaker with the higher BGP identifier; RFC 6286 tie-break on the
+// AS), the session continues on it with the OPEN received on it, and the other one is closed.
+func VH_c07_collision() {
+	l3, r3 := vU8("local_id"), vU8("remote_id")
+	open, _ := bgp.NewBGPOpenMessage(65001, 90, vAddr4(2, 2, 2, r3), []bgp.OptionParameterInterface{
+		bgp.NewOptionParameterCapability([]bgp.ParameterCapabilityInterface{bgp.NewCapFourOctetASNumber(65001)})})
+	f, h, cin := c07fsm(bgp.BGP_FSM_OPENSENT, c07wire(open), true)
+	f.gConf.Config.RouterId = vAddr4(2, 2, 2, l3)
+	cout := newVConn(nil, true)
+	outOpen, _ := bgp.NewBGPOpenMessage(65001, 90, vAddr4(2, 2, 2, r3), []bgp.OptionParameterInterface{
+		bgp.NewOptionParameterCapability([]bgp.ParameterCapabilityInterface{bgp.NewCapFourOctetASNumber(65001)})})
+	// the active open completes while the handler waits: both events are pending when it looks.
+	// Natively the scheduling point hook makes the first look wait until the receive goroutine has
+	// delivered the OPEN and the active open has been queued (the engine's cooperative schedule
+	// gives the same situation: both helper goroutines run when the handler first blocks).
+	if vNative() {
+		first := true
+		verifHook = func(name string) {
+			if name == "opensent.select" && first {
+				first = false
+				f.outgoingConnCh <- outgoingConn{conn: cout, open: outOpen}
+				for i := 0; i < 2000 && !cin.consumed(); i++ {
+					time.Sleep(time.Millisecond)
+				}
+				time.Sleep(20 * time.Millisecond)
+			}
+		}
+		defer func() { verifHook = nil }()
+	} else {
+		go func() { f.outgoingConnCh <- outgoingConn{conn: cout, open: outOpen} }()
+	}
+	next, _ := h.opensent(context.Background())
+	vAssert(next == bgp.BGP_FSM_OPENCONFIRM, "a collision between two healthy connections does not continue in OpenConfirm")
+	// local AS 65000 < remote AS 65001: with equal identifiers the remote side is dominant
+	dominant := l3 > r3
+	keep, drop, keepOpen := cin, cout, f.recvOpen
+	if dominant {
+		keep, drop = cout, cin
+	}
+	vAssert(f.conn == net.Conn(keep) && !keep.closed, "collision resolution kept the wrong connection (or closed both)")
+	vAssert(drop.closed, "the losing connection of a collision is left open")
+	dc, ds, dn, _, _ := drop.written()
+	vAssert(dn && dc == bgp.BGP_ERROR_CEASE && ds == bgp.BGP_ERROR_SUB_CONNECTION_COLLISION_RESOLUTION, "the losing connection of a collision is closed without the Cease / Connection Collision Resolution NOTIFICATION (RFC 4271 6.8, RFC 4486)")
+	if dominant {
+		vAssert(keepOpen == outOpen, "the session continues with the OPEN of the connection that was closed")
+	} else {
+		vAssert(keepOpen != outOpen, "the session continues with the OPEN of the connection that was closed")
+	}
+	_, _, notif, keepalive, _ := keep.written()
+	vAssert(keepalive && !notif, "no KEEPALIVE is sent on the surviving connection")
+	if dominant {
+		vReach("kept_outgoing")
+	} else {
+		vReach("kept_incoming")
 	}
 }
